@@ -341,6 +341,94 @@ pub fn run(ctx: &Ctx) -> i32 {
         }
     });
     col.layer("OutputPrinter", total * 6, true, json!({"domain_values": n, "formats": 3, "result_shapes": shapes.len()}));
+    // end to end: FileExecutor and the command line program with --format: column names (alias / column / p<i> / `*`
+    // in definition order), one record per row, CSV header once, library and CLI print the same lines
+    {
+        use crate::sut::{self, FileRunOpts, Outcome};
+        let def = "CREATE TABLE t(line = '^([a-z]+) ([0-9]+) ?(.*)$', line[1] => k TEXT, line[2] => v INT, line[3] => s TEXT);";
+        let tables = sut::make_tables(def).unwrap();
+        let data = "a 1 x y\nb 2 \nnoise\na 3 it's \"q\"; z\n";
+        let cases: Vec<(&str, Vec<&str>, usize)> = vec![
+            ("SELECT k, v AS val, v + 1 FROM t", vec!["k", "val", "p2"], 3),
+            ("SELECT * FROM t", vec!["k", "v", "s"], 3),
+            ("SELECT t.k, t.v FROM t WHERE v > 1", vec!["t.k", "t.v"], 2),
+            ("SELECT input FROM t", vec!["input"], 3),
+            ("SELECT k, COUNT(*) AS n, SUM(v) AS total FROM t GROUP BY k", vec!["k", "n", "total"], 2),
+            ("SELECT upper(k) AS u, s FROM t LIMIT 2", vec!["u", "s"], 2),
+        ];
+        let dir = sut::tmp_dir();
+        let defp = format!("{}/c17_def_{}.txt", dir, std::process::id());
+        let datap = format!("{}/c17_data_{}.txt", dir, std::process::id());
+        std::fs::write(&defp, def).unwrap();
+        std::fs::write(&datap, data).unwrap();
+        let mut ne = 0u64;
+        for (q, names, nrows) in &cases {
+            let st = sut::parse(q).unwrap();
+            for (fname, f) in [("text", OutputFormat::Text), ("json", OutputFormat::Json), ("csv", OutputFormat::CSV(";".into()))] {
+                let lib = match sut::run_files(&tables, &st, &[data.as_bytes()], FileRunOpts { format: f.clone(), single_result: true, ..Default::default() }) {
+                    Outcome::Ok(fr) if fr.result.is_ok() => fr.printed.clone(),
+                    o => vec![format!("<{}>", o.kind())],
+                };
+                ne += 1;
+                col.eval(1);
+                col.nontrivial(h64(&("e2e", q, fname)));
+                let mut problems: Vec<String> = Vec::new();
+                let records: Vec<&String> = if fname == "csv" { lib.iter().skip(1).collect() } else { lib.iter().collect() };
+                if records.len() != *nrows {
+                    problems.push(format!("{} records for {} rows", records.len(), nrows));
+                }
+                match fname {
+                    "json" => {
+                        for r in &records {
+                            match serde_json::from_str::<J>(r) {
+                                Ok(J::Object(m)) => {
+                                    if m.keys().map(|k| k.as_str()).collect::<Vec<_>>() != *names {
+                                        problems.push(format!("keys {:?} instead of {:?}", m.keys().collect::<Vec<_>>(), names));
+                                    }
+                                }
+                                _ => problems.push(format!("record {:?} is not a JSON object", r)),
+                            }
+                        }
+                    }
+                    "csv" => {
+                        if lib.first().map(|h| h.as_str()) != Some(names.join(";").as_str()) {
+                            problems.push(format!("header {:?} instead of {:?}", lib.first(), names.join(";")));
+                        }
+                    }
+                    _ => {
+                        if !(names.len() == 1 && names[0] == "input") {
+                            for r in &records {
+                                if !r.starts_with(&format!("{}: ", names[0])) {
+                                    problems.push(format!("record {:?} does not start with the first column name {:?}", r, names[0]));
+                                }
+                            }
+                        }
+                    }
+                }
+                if let Some((cli, _stderr, ok)) = sut::run_cli(&["-d", &defp, &datap, "--format", fname, "-c", q]) {
+                    ne += 1;
+                    col.eval(1);
+                    let cli: Vec<String> = cli.into_iter().collect();
+                    if cli != lib || !ok {
+                        problems.push(format!("the command line program printed {:?}, the library {:?}", cli, lib));
+                    }
+                }
+                if !problems.is_empty() {
+                    col.fail(fail(
+                        format!("print:end-to-end:{}:{}", fname, problems[0].split(' ').take(2).collect::<Vec<_>>().join("-")),
+                        format!("`{}` in {} format: {}", q, fname, problems.join("; ")),
+                        json!({"layer": "e2e", "query": q, "format": fname}),
+                        json!({"names": names, "rows": nrows}),
+                        json!(lib),
+                        ne,
+                    ));
+                }
+            }
+        }
+        std::fs::remove_file(&defp).ok();
+        std::fs::remove_file(&datap).ok();
+        col.layer("end to end: FileExecutor + command line program", ne, true, json!({"queries": cases.len(), "formats": 3}));
+    }
     finish(
         ctx,
         &col,
@@ -355,6 +443,10 @@ pub fn run(ctx: &Ctx) -> i32 {
 }
 
 pub fn replay(case: &J) -> Vec<Failure> {
+    if case["layer"].as_str() == Some("e2e") {
+        println!("note: end-to-end cases are replayed by re-running `./check C17 quick` (query {} in {} format)", case["query"], case["format"]);
+        return vec![];
+    }
     let dom = domain();
     let names: Vec<String> = case["columns"].as_array().unwrap().iter().map(|x| x.as_str().unwrap().to_string()).collect();
     let nrefs: Vec<&str> = names.iter().map(|s| s.as_str()).collect();
